@@ -399,6 +399,13 @@ def _symbolic_for(interp, s, frame, state, space):
             post = _subst_val(post, resolved)
         pre = pre_env.get(name, _MISSING)
         summary_env[name] = _summarise_value(interp, name, pre, post, env_h.get(name, _MISSING), iz, lo, hi, hv_consts, hv_funcs, st1)
+    # carried scalars with a closed form (accumulations): their value at the start of iteration i is substituted for the havoc
+    # constant in the other effects (array stores, written texts) before those are analysed
+    for name, summ in summary_env.items():
+        if summ[0] == "sum" and name in scal_h and isinstance(scal_h[name], SV) and pre_env.get(name, _MISSING) is not _MISSING:
+            closed = _instantiate(summ, i, iz, lo, pre_env[name], const_closed=not merged)
+            if sv.is_scalar(norm(closed)):
+                resolved.append((scal_h[name].t, sv.znum(closed) if not scal_h[name].is_real else sv.zr(closed)))
     # the loop target keeps its last value
     for name in target_names:
         if name in fr1.env:
@@ -419,13 +426,13 @@ def _symbolic_for(interp, s, frame, state, space):
     for sid in other_touched:
         if merged and pre_heap[sid].kind != "file":
             raise zero_fork
-        summary_heap[sid] = _summarise_cell(interp, sid, pre_heap[sid], heap_h, st1, iz, lo, hi, hv_consts, hv_funcs, guarded=merged)
+        summary_heap[sid] = _summarise_cell(interp, sid, pre_heap[sid], heap_h, st1, iz, lo, hi, hv_consts, hv_funcs, guarded=merged, resolved=resolved)
     # ---- build state(k) and check init / step
     def state_at(k):
         env = dict(pre_env)
         heap = dict(pre_heap)
         for name, summ in summary_env.items():
-            env[name] = _instantiate(summ, k, iz, lo, pre_env.get(name, _MISSING))
+            env[name] = _instantiate(summ, k, iz, lo, pre_env.get(name, _MISSING), const_closed=not merged)
         for sid, summ in summary_heap.items():
             heap[sid] = summ(k)
         return env, heap
@@ -491,6 +498,10 @@ def _symbolic_for(interp, s, frame, state, space):
                 goals0.append(z3.Implies(z3.And(*rng) if rng else z3.BoolVal(True), g))
         else:
             goals0.extend(_cell_eq_goals(c, heap_0[sid]))
+    if os.environ.get("PYVC_DEBUG_LOOPS"):
+        print("LOOP-DEBUG init goals at", where)
+        for g in goals0:
+            print("   ", z3.simplify(g))
     for g in goals0:
         st.side.append(_SideGoal("loop-init", g, st.all_assumptions(), where))
     # ---- post-state
@@ -618,10 +629,15 @@ def _summarise_value(interp, name, pre, post, hv, iz, lo, hi, hv_consts, hv_func
     return ("last_obj", post)
 
 
-def _instantiate(summ, k, iz, lo, pre):
+def _instantiate(summ, k, iz, lo, pre, const_closed=False):
     kind = summ[0]
     if kind == "sum":
         delta = summ[1]
+        if isinstance(delta, SV):
+            delta = A.simp(delta)
+        if const_closed and is_conc(norm(delta)):
+            # constant increment: c (k - lo); every instantiation of the loop rule has k >= lo unless the zero-trip case was merged
+            return A.simp(sv.add(pre, sv.mul(delta, sv.sub(k, lo))))
         return sv.add(pre, Sum(lo, k, lambda t: _subst_val(delta, [(iz, sv.znum(t))])))
     if kind == "last":
         # value produced by iteration k-1
@@ -871,7 +887,7 @@ def _mentions(t, c):
     return False
 
 
-def _summarise_cell(interp, sid, pre_cell, heap_h, st1, iz, lo, hi, hv_consts, hv_funcs, guarded=False):
+def _summarise_cell(interp, sid, pre_cell, heap_h, st1, iz, lo, hi, hv_consts, hv_funcs, guarded=False, resolved=()):
     """non-array heap cells touched by the body: python lists (append), dataframes (column updates), objects"""
     post_cell = st1.heap[sid]
     if pre_cell.kind == "list":
@@ -907,7 +923,7 @@ def _summarise_cell(interp, sid, pre_cell, heap_h, st1, iz, lo, hi, hv_consts, h
         raise EngineError("list mutated in a symbolic loop in an unsupported way")
     if pre_cell.kind == "file":
         if pre_cell.data.get("mode") == "w":
-            return _summarise_file_cell(pre_cell, post_cell, iz, lo, hi, hv_consts, hv_funcs)
+            return _summarise_file_cell(pre_cell, post_cell, iz, lo, hi, hv_consts, hv_funcs, resolved)
         hp = heap_h[sid].data["pos"]
         d = sv.sub(post_cell.data["pos"], hp)
         dts = [z3.simplify(t) for t in _terms_of(d)]
@@ -928,7 +944,7 @@ def _summarise_cell(interp, sid, pre_cell, heap_h, st1, iz, lo, hi, hv_consts, h
     raise EngineError(f"heap cell of kind {pre_cell.kind} modified in a symbolic loop")
 
 
-def _summarise_file_cell(pre_cell, post_cell, iz, lo, hi, hv_consts, hv_funcs):
+def _summarise_file_cell(pre_cell, post_cell, iz, lo, hi, hv_consts, hv_funcs, resolved=()):
     """a file handle used inside a symbolic loop.
     reading: every iteration advances the position by a constant number of lines -> pos(k) = pos0 + c (k - lo);
     writing: every iteration appends items -> one Block(var, lo, k, items(var)) after the pre-existing items."""
@@ -948,6 +964,9 @@ def _summarise_file_cell(pre_cell, post_cell, iz, lo, hi, hv_consts, hv_funcs):
     if post_items[:len(pre_items)] != pre_items:
         raise EngineError("file items rewritten inside a loop")
     added = post_items[len(pre_items):]
+    if resolved:
+        from .text import subst_item
+        added = tuple(subst_item(x, list(resolved)) for x in added)
     for t in _item_terms(added):
         if _contains_any(t, hv_consts, hv_funcs):
             raise EngineError("text written inside a loop depends on loop-carried state — needs a written summary")
@@ -994,6 +1013,8 @@ def _file_cells_equal(a, b):
             out.append(x)
         return out
     na, nb = norm_items(ia), norm_items(ib)
+    if len(na) == len(nb) and all((x is y) or (x == y) for x, y in zip(na, nb)):
+        return []
     if len(nb) >= 1 and isinstance(nb[-1], Block):
         blk = nb[-1]
         m = len(blk.items)
